@@ -229,6 +229,7 @@ pub fn run_conc(case: &Case) -> RunOutput {
             );
         }
         Ok(Err(e)) => out.harness_error = Some(e),
+        Err(crate::rt::SimStop::MainPanicked(message)) => crate::scen::main_panicked("C12", &message, &mut out),
         Err(stop) => out.violations.push(Violation { prop: "C12", oracle: "bounded_liveness", tag: "run_never_ends".into(), detail: format!("{stop:?}"), op_index: 0 }),
     }
     for e in &h.errors {
